@@ -289,6 +289,7 @@ func (c *udpMuxedConn) writePacket(
 	pkt.sourceAddrPort = sourceAddrPort
 	pkt.sourceAddr = sourceAddr
 
+	verifhook.Yield("mr.d_put")
 	c.mu.Lock()
 	if c.closed {
 		c.mu.Unlock()
